@@ -1,17 +1,35 @@
-/- C16 — second invariant, receive loop running: the peer's close frame arrives. -/
-import TornadoModel.C16.Inv2Open
+/- C16 — second invariant: the receive loop reads the peer's close frame (transport up, no on_message in flight). -/
+import TornadoModel.C16.Inv2A
 namespace TornadoModel.C16
 open Spec
 
-theorem stepB_recvClose (cfg : Cfg) (p : Bytes) (ok : Bool) (hconn st waiting : Bool) (ping : Ping) (gotPong : Bool)
-    (log : List Ev) (hl : OpenLog st log) :
-    Inv2 (step cfg (openSt hconn st waiting ping gotPong log) (.recvClose p ok)) := by
-  obtain ⟨nb, peer, nd, nn, sc, g1, g2, g3, g4⟩ := hl
-  rcases cfg with ⟨side, pingOn, timeoutPos, gap⟩
-  rcases p with _ | ⟨a, _ | ⟨b, _ | ⟨c, rest⟩⟩⟩ <;> cases side <;> cases hconn <;> cases st <;> cases ok <;>
-    (refine ⟨?_, ?_, ?_, ?_, fun _ => ⟨?_, ?_, ?_⟩⟩ <;>
-      simp [step, pump, act, enqueue, emit, openSt, pumpQ_cons, pumpQ_nil, handleIn, protoClose, closeStream, abort,
-        deliverClose, finishLoop, forallH, echoesPeerCode, bothClosedSendsClose, teardownBothClosed,
-        notifyCarriesPeerClose, neverBlocked_cons, peerOf, peer, nb, sc, g1, g2, g3, g4, PeerOK, isOp, isClose,
-        isAsyncDataOp, decodeClose, echoPayload, closePayload])
+theorem noEof_tail {i : In} {q : List In} {s : St} (h : s.peerGone = false → ∀ x ∈ i :: q, x ≠ In.eof) :
+    s.peerGone = false → ∀ x ∈ q, x ≠ In.eof :=
+  fun hg x hx => h hg x (List.mem_cons_of_mem _ hx)
+
+/-- the peer's close frame is read: it is what the observer says was received; the echo carries its code, the
+transport goes down, `close_code/close_reason` are what it carried -/
+theorem link_handleIn_close {q : List In} {s : St} (p : Bytes) (ok : Bool) (h : Link (.close p ok :: q) s)
+    (hso : s.sopen = true) (hct : s.ct = false) (hb : s.blocked = false) : Link q (handleIn (.close p ok) s) := by
+  obtain ⟨p1, p2, p3, p4, p5⟩ := h.live hso
+  obtain ⟨h1, h2, h3, _, _, g1, g2, g3, g4, g5⟩ := h
+  have hnow : peerOf s.log = .got (decodeClose p ok).1 (decodeClose p ok).2 (p.length ≤ 2 || ok) :=
+    now_got _ p ok (proj q) p2 (by rw [h1]; exact hb) p1
+  have hP1 : peerOf (.streamClosed :: s.log) = .got (decodeClose p ok).1 (decodeClose p ok).2 (p.length ≤ 2 || ok) :=
+    peerOf_streamClosed_decided _ _ hnow (by simp)
+  have hP2 : ∀ pl, peerOf (.streamClosed :: .closeFrame pl :: s.log) =
+      .got (decodeClose p ok).1 (decodeClose p ok).2 (p.length ≤ 2 || ok) :=
+    fun pl => peerOf_streamClosed_decided _ _ (show (obs (.closeFrame pl :: s.log)).now = _ from hnow) (by simp)
+  have hn3 := noEof_tail h3
+  rcases s with ⟨hconn, occ, ct, st, waiting, sopen, code, reason, ping, gotPong, blocked, loopDone, inq, peerGone, log⟩
+  simp only at hso hct hb p3 p4 p5 h1 h2 hn3 hnow hP1 hP2 g1 g2 g3 g4 g5
+  subst hso hct hb p3 p4
+  rcases p with _ | ⟨a, _ | ⟨b, _ | ⟨c, rest⟩⟩⟩ <;> cases st <;> cases ok <;>
+    (constructor <;>
+      first
+      | exact hn3
+      | simp [handleIn, protoClose, closeStream, abort, emit, Obs.upd, PeerOK, hP1, hP2, hnow, forallH, echoesPeerCode,
+          bothClosedSendsClose, teardownBothClosed, notifyCarriesPeerClose, notifyWhenDownB, isOp, isClose,
+          decodeClose, echoPayload, closePayload, g1, g2, g3, g4, g5, h1, h2, p5])
+
 end TornadoModel.C16
